@@ -7,11 +7,11 @@ LEVEL = "model_checking"
 
 def gen(ck):
     w = ck.work
-    sub, ed, tb = os.path.join(w, "subsets.ndjson"), os.path.join(w, "edits.ndjson"), os.path.join(w, "tables.ndjson")
-    r = tlc_must_pass(tlc("Gen_PsetCodec", "Gen_PsetCodec.cfg", w, env={"GEN_TIER": ck.tier, "OUT_SUBSETS": sub, "OUT_EDITS": ed, "OUT_TABLES": tb},
+    sub, ed, tb, sz = (os.path.join(w, x) for x in ("subsets.ndjson", "edits.ndjson", "tables.ndjson", "sized.ndjson"))
+    r = tlc_must_pass(tlc("Gen_PsetCodec", "Gen_PsetCodec.cfg", w, env={"GEN_TIER": ck.tier, "OUT_SUBSETS": sub, "OUT_EDITS": ed, "OUT_TABLES": tb, "OUT_SIZED": sz},
                           workers=1, timeout=2400, xmx="16g"), "C07 gen")
     ck.add_tlc(r, "field-subset cases, edit cases with the decoder's verdict, wire-type tables")
-    return sub, ed, tb
+    return sub, ed, tb, sz
 
 
 def run(ck):
@@ -20,10 +20,12 @@ def run(ck):
         r = tlc_must_pass(tlc("MC_PsetCodec", "MC_PsetCodec_%s.cfg" % k, os.path.join(ck.work, k), workers=8, timeout=1200), "C07 model " + k)
         ck.add_tlc(r, "%s map: every string within 2 edits (swap, duplicate, drop, bad preimage) of a canonical encoding: RoundTrip, Fixpoint, "
                       "OrderInsensitive, Refusals" % k)
-    sub, ed, tb = gen(ck)
+    sub, ed, tb, sz = gen(ck)
     rep = vh(["psetcodec", "subsets", "--cases", sub, "--tables", tb, "--seed", ck.seed], timeout=7000)
     ck.add_vh(rep, distinct_key="distinct_cases")
     rep = vh(["psetcodec", "edits", "--cases", ed, "--tables", tb, "--seed", ck.seed], timeout=7000)
+    ck.add_vh(rep, distinct_key="distinct_cases")
+    rep = vh(["psetcodec", "sized", "--cases", sz, "--tables", tb, "--seed", ck.seed], timeout=7000)
     ck.add_vh(rep, distinct_key="distinct_cases")
     trace = os.path.join(ck.work, "trace.ndjson")
     rep = vh(["psetcodec", "record", "--out", trace, "--seed", ck.seed, "--per-item", 300 if q else 6000], timeout=7000,
@@ -37,7 +39,9 @@ def run(ck):
                       "accessors: bytes and base64 round trip, re-encode fixpoint, and every populated field found on the wire under the "
                       "type the specification's table gives; edits: a fully populated PSET parsed by an own key-value reader, every pair "
                       "dropped / duplicated / moved to the front, map reversed, preimage corrupted, counts +-1, magic / separator, with "
-                      "the verdict of the specification's decoder; traces: byte-level and pair-level mutations of the repository's PSET "
+                      "the verdict of the specification's decoder; sized: every variable-length part of every field (scripts, stack items and "
+                      "counts, paths, leaf-hash lists, tap-tree leaves, key data, prefixes, values) at 0 / 1 / 252 / 253 / 254 / 65535 / 65536: round "
+                      "trip, fixpoint, and the value length on the wire equal to the specification's framing formula; traces: byte-level and pair-level mutations of the repository's PSET "
                       "vectors and generated PSETs accepted by Trace_Pset; distinct = distinct abstract cases")
     ck.assumptions += ["value codecs of individual fields (transactions, keys, proofs) are exercised by concretisation, not modelled",
                        "the scalar list is an ordered list in the API: its order is observable and not required to be canonicalised"]
